@@ -9,7 +9,7 @@ PROP = {'areas': [{'area': 'c02',
             'extra': ['100'],
             'only_prop': 'C02',
             'quick': 3000,
-            'thorough': 2000000,
+            'thorough': 1000000,
             'tie_fields': ['out']}],
  'coq_target': 'Properties/C02.vo',
  'modelled': 'encode.rs Encoder::reset / Encoder::encode / process_encoding_step / encode_vli / compute_variable_length_integer_encode_size and all length / '
